@@ -409,6 +409,8 @@ def run_batch_scenario(idx, sc, texts):
         files = {}
         n = sc["n"]
         fails = set()
+        prev_t = None
+        cfg_args = [a for kv in sc.get("cfg", {}).items() for a in ("-C", f"{kv[0]}={kv[1]}")]
         for k in range(n):
             name = f"u{k:03d}.pas"
             p = os.path.join(d, name)
@@ -416,6 +418,9 @@ def run_batch_scenario(idx, sc, texts):
             if k < len(sc["fail"]):
                 kind = sc["fail"][k]
             t = rnd.choice(texts)
+            if k % 3 == 2 and prev_t is not None:
+                t = prev_t + "\n" + t         # files that share a long prefix with their neighbour (state keyed by position would collide)
+            prev_t = t
             reps = rnd.choice([1, 1, 1, 2, 5, 40]) if k % 2 == 0 else 1          # long files next to short ones
             body = ("\n".join([t] * reps)).encode()
             if rnd.random() < 0.2:
@@ -443,8 +448,8 @@ def run_batch_scenario(idx, sc, texts):
         trace = os.path.join(root, "trace.ndjson")
         env = {"RAYON_NUM_THREADS": str(sc["threads"]), "PASFMT_VERIF_TRACE": trace}
         mode_args = ["--mode", "stdout"] if sc.get("mode") == "stdout" else []
-        rc, out, err = run_bin(mode_args + (paths if sc.get("explicit", True) else [d]), root, env=env)
-        what = f"n={n} threads={sc['threads']} failing={sorted(fails)}" + (" mode=stdout" if mode_args else "")
+        rc, out, err = run_bin(cfg_args + mode_args + (paths if sc.get("explicit", True) else [d]), root, env=env)
+        what = f"n={n} threads={sc['threads']} failing={sorted(fails)}" + (" mode=stdout" if mode_args else "") + (f" cfg={sc['cfg']}" if cfg_args else "")
         if (rc != 0) != bool(fails):
             problems.append({"clause": "exit_status", "detail": f"exit status {rc} but the failing files are {sorted(fails)} ({what}); stderr {err[-300:].decode(errors='replace')}"})
         if mode_args:
@@ -454,7 +459,7 @@ def run_batch_scenario(idx, sc, texts):
             for nm, body in files.items():
                 if body is None or nm in fails:
                     continue
-                rc1, text = oracle(body)
+                rc1, text = oracle(body, cfg_args)
                 if rc1 != 0:
                     return [], True, []
                 blocks[nm] = os.path.join(d, nm).encode() + b":\n" + text + b"\n"
@@ -490,7 +495,7 @@ def run_batch_scenario(idx, sc, texts):
             sp = os.path.join(solo_dir, nm)
             with open(sp, "wb") as fh:
                 fh.write(body)
-            rc1, _, e1 = run_bin([sp], root, env={"RAYON_NUM_THREADS": "1"})
+            rc1, _, e1 = run_bin(cfg_args + [sp], root, env={"RAYON_NUM_THREADS": "1"})
             solo = open(sp, "rb").read()
             if rc1 != 0:
                 return [], True, []
